@@ -56,6 +56,9 @@ Next ==
             /\ UNCHANGED <<rank, asked, cancelled, viol>>
        [] e.ev = "lk.cancel" -> cancelled' = TRUE /\ UNCHANGED <<rank, seen, asked, running, supplied, viol>>
        [] e.ev = "lk.hang" -> viol' = viol \cup {<<l, "terminates">>} /\ UNCHANGED <<rank, seen, asked, running, supplied, cancelled>>
+       [] e.ev = "lk.ret" ->        \* logged the moment the lookup call returns: no query may still be out
+            /\ viol' = viol \cup (IF running = {} THEN {} ELSE {<<l, "drained">>})
+            /\ UNCHANGED <<rank, seen, asked, running, supplied, cancelled>>
        [] e.ev = "lk.done" ->
             /\ viol' = viol \cup {<<l, f>> : f \in Failed(IF e.kind = "node" THEN DoneNode(e) ELSE DoneContent(e))}
             /\ UNCHANGED <<rank, seen, asked, running, supplied, cancelled>>
